@@ -338,12 +338,12 @@ class ClientPort:
 class Hub:
     """one Lean server (lean/Drivers/C20.lean) shared by several clients"""
 
-    def __init__(self, drv: PersistentDriver, n: int):
+    def __init__(self, drv: PersistentDriver, n: int, prefix: str | None = None):
         self.drv = drv
         self.n = n
         self.now_ms = 0
         self.calls = 0
-        if drv.ask(f"reset {n}") != "ok":
+        if drv.ask(f"reset {n}" + ("" if prefix is None else " " + prefix.encode().hex())) != "ok":
             raise HarnessError("driver refused reset")
         self.ports = [ClientPort(self, i) for i in range(n)]
 
